@@ -79,14 +79,7 @@ def run(ctx, idx):
         else:
             ctx.hold("C02.b", con, d.module.rel, fi.node.lineno, "no self/global stores; effects: %s" % (sorted({e[0] for e in r.effects}) or "none"), nontrivial=bool(r.effects))
         # e: a consumer that writes through an input makes results depend on who else consumes it, and in which order
-        from engine.arrays import is_input_token
-        shared = sorted({a for w in r.writes for a in w.alias if is_input_token(a) and a != "self"})
-        con = "%s.execute::leaves-inputs-alone" % d.key
-        if shared:
-            w0 = [w for w in r.writes if any(is_input_token(a) and a != "self" for a in w.alias)][0]
-            ctx.violate("C02.e", con, d.module.rel, w0.line, "%s writes in place through its input %s (%s): every other consumer of that result sees the change if it runs later, so results depend on command order" % (d.cls.name, R.tok_text(shared), w0.what))
-        else:
-            ctx.hold("C02.e", con, d.module.rel, fi.node.lineno, "no in-place write reaches an input", nontrivial=bool(r.writes))
+        R.leaves_inputs_alone(ctx, "C02.e", d, r)
         # c
         own = d.cls.methods.get("execute")
         con = "%s.execute::metadata-inert" % d.key
@@ -119,3 +112,9 @@ def run(ctx, idx):
                 else:
                     ctx.violate("C02.d", con, d.module.rel, R.line_of(s), "a command declaring Data output returns %s" % (getattr(v, "tag", type(v).__name__)))
     ctx.floor("C02.b", "execute bodies", n_exec, 30)
+    # f: the value computed is the evaluation of the graph over the non-missing data
+    ctx.rule("C02.f", "Values follow the graph: in every data command the returned mask covers the mask of every input the cells are computed from and no number hidden under a missing cell reaches a valid cell (the obligations of C03.a-c, restated here because a cell that should be missing but carries a value — or a value computed from fewer inputs than the graph names — is a wrong result); file readers mark missing exactly the cells equal to the declared missing value (an explicit 0 included).")
+    from . import C03
+
+    C03.coverage(ctx, idx, "C02.f", "C02.f", "C02.f")
+    C03.readers(ctx, idx, "C02.f")
